@@ -84,7 +84,7 @@ def gen_ops(rng, nops):
             ops.append({"op": "copy", "h": h, "g": g, "to": rng.randrange(NG), "how": rng.choice(["copy", "copy.copy"])})
         elif r < 0.80:
             mode = rng.choice(["same", "equal-copy", "reordered", "reordered", "one-different", "all-different", "units-exact", "units-different", "incompatible", "extra-key", "asis",
-                               "dtype-other"])
+                               "dtype-other", "kind-other"])
             ops.append({"op": "eq", "h": h, "g": g, "g2": rng.randrange(NG), "mode": mode, "pick": rng.randrange(8)})
         elif r < 0.86:
             ops.append({"op": "ds_set", "h": h, "d": rng.randrange(ND), "name": rng.choice(["mesh", "part", "x"]),
@@ -145,6 +145,10 @@ def raw(obj):
     if v.ndim == 2:
         return [v[:, j] for j in range(v.shape[1])]
     return [v]
+
+
+def rng_pick(k, options):
+    return options[k % len(options)]
 
 
 def model_equal(va, vb):
@@ -382,6 +386,13 @@ def execute(case, stats):
                         # the same numbers stored with another width (float32 for float64, int32 for int64): equal by content
                         specs[pk]["dtype"] = {"f8": "f4", "i8": "i4"}.get(specs[pk].get("dtype", "f8"), "f4")
                         stats.inc("probe.eq_same_content_other_dtype")
+                    elif mode == "kind-other":
+                        # an Array against a Vector whose every component holds the Array's numbers (or the other way round)
+                        if specs[pk]["kind"] == "arr":
+                            specs[pk] = dict(specs[pk], kind="vec", vals=[list(specs[pk]["vals"][0]) for _ in range(rng_pick(op["pick"], [1, 2, 3]))], dtype="f8")
+                        elif specs[pk]["kind"] == "vec":
+                            specs[pk] = dict(specs[pk], kind="arr", vals=[list(specs[pk]["vals"][0])], dtype="f8")
+                        stats.inc("probe.eq_array_against_vector_of_same_numbers")
                     elif mode == "one-different":
                         specs[pk]["vals"][0][0] += 1.0
                     elif mode == "all-different":
